@@ -2,6 +2,7 @@ import QuiverModel.Core.RefSem.Parse
 import QuiverModel.Core.RefSem.Compile0
 import QuiverModel.Core.RefSem.Compile1
 import QuiverModel.Core.RefSem.Compile2
+import QuiverModel.Core.RefSem.Compile3
 /-
 qm_c02 — driver for M-RefSem. Requests:
   (eval <program> <fuel>)  →  ok <canonical value> | err <Class> | fuel-out | unspecified <why> | unsupported
@@ -15,6 +16,9 @@ qm_c02 — driver for M-RefSem. Requests:
       term1 ::= (i z cidx) | (~) | (t id chain1*) | (v x) | (m pat)
       pat ::= (pt sub) | (ptup sub*)      sub ::= (b x) | (w) | (l z cidx)
       values print as i<z> | t(<id>;v,…)
+  (compile3 (fns (fn <fi> (caps x …) branch+)…) <chain3>+)  →  ok <entry code> ; f<fi> <code> ; …   (Compile3: + functions)
+  (eval3 <fuel> (fns …) <chain3>+)                           →  ok <value> | stuck
+      term3 ::= term2 | (fnlit <fi> x …) | (call x)        function values print as f<fi>
   (compile2 <chain2>+) / (eval2 <chain2>+)   the same with blocks (Core/RefSem/Compile2):
       term2 ::= term1 | (blk branch+)      branch ::= (br (s chain2+)) | (br (s chain2+) (s chain2+))
 The evaluation is `QM.RefSem.evalProgram`, the compilation `QM.RefSem.C0.compileCh` — the definitions
@@ -220,6 +224,93 @@ partial def showVal : QM.VM.Val → String
 def Γ₀ : List String := [""]
 end C2Glue
 
+namespace C3Glue
+open QM.RefSem.C3
+open QM.RefSem.C1 (Sub Pat1)
+open C1Glue (parsePat)
+
+mutual
+  partial def parseT : Sx → Option T3
+    | .list [.atom "i", z, c] =>
+      match z.asInt, c.asNat with
+      | some z, some c => some (.int z c)
+      | _, _ => none
+    | .list [.atom "~"] => some .ripple
+    | .list [.atom "v", .atom x] => some (.var x)
+    | .list [.atom "m", p] => (C1Glue.parsePat p).map T3.mtch
+    | .list (.atom "blk" :: bs) => (parseBrs bs).map T3.block
+    | .list (.atom "fnlit" :: fi :: caps) =>
+      match fi.asNat with
+      | some fi => some (.fnlit fi (caps.filterMap (fun | .atom a => some a | _ => none)))
+      | none => none
+    | .list [.atom "call", .atom x] => some (.call x)
+    | .list (.atom "t" :: id :: fs) =>
+      match id.asNat, parseFs fs with
+      | some id, some fs => some (.tup id fs)
+      | _, _ => none
+    | _ => none
+  partial def parseCh : Sx → Option Ch3
+    | .list (.atom "ch" :: ts) => parseTs ts
+    | _ => none
+  partial def parseTs : List Sx → Option Ch3
+    | [] => some .nil
+    | t :: r =>
+      match parseT t, parseTs r with
+      | some t, some r => some (.cons t r)
+      | _, _ => none
+  partial def parseFs : List Sx → Option Fs3
+    | [] => some .nil
+    | c :: r =>
+      match parseCh c, parseFs r with
+      | some c, some r => some (.cons c r)
+      | _, _ => none
+  partial def parseSq : List Sx → Option Sq3
+    | [c] => (parseCh c).map Sq3.last
+    | c :: r =>
+      match parseCh c, parseSq r with
+      | some c, some r => some (.cons c r)
+      | _, _ => none
+    | [] => none
+  partial def parseS : Sx → Option Sq3
+    | .list (.atom "s" :: cs) => parseSq cs
+    | _ => none
+  partial def parseBrs : List Sx → Option Brs3
+    | [] => some .nil
+    | .list [.atom "br", c] :: r =>
+      match parseS c, parseBrs r with
+      | some c, some r => some (.cons c .none r)
+      | _, _ => none
+    | .list [.atom "br", c, k] :: r =>
+      match parseS c, parseS k, parseBrs r with
+      | some c, some k, some r => some (.cons c (.some k) r)
+      | _, _, _ => none
+    | _ => none
+end
+
+partial def showVal : QM.VM.Val → String
+  | .int z => s!"i{z}"
+  | .tup id fs => s!"t({id};" ++ ",".intercalate (fs.toList.map showVal) ++ ")"
+  | _ => "?"
+
+/-- the entry function's frame: one anonymous slot holding the (nil) parameter -/
+def Γ₀ : List String := [""]
+/-- `(fns (fn <fi> (caps x …) (br …)+) …)` -/
+partial def parseFns : List Sx → Option QM.RefSem.C3.FTab
+  | [] => some []
+  | .list (.atom "fn" :: fi :: .list (.atom "caps" :: caps) :: bs) :: r =>
+    match fi.asNat, parseBrs bs, parseFns r with
+    | some fi, some body, some r =>
+      some ((fi, ⟨caps.filterMap (fun | .atom a => some a | _ => none), body⟩) :: r)
+    | _, _, _ => none
+  | _ => none
+
+partial def showVal3 : QM.VM.Val → String
+  | .int z => s!"i{z}"
+  | .tup id fs => s!"t({id};" ++ ",".intercalate (fs.toList.map showVal3) ++ ")"
+  | .fn fi _ => s!"f{fi}"
+  | _ => "?"
+end C3Glue
+
 def c02Step (_ : Unit) (req : List Sx) : Unit × String :=
   match req with
   | [.list [.atom "eval", prog, fuel]] =>
@@ -259,6 +350,20 @@ def c02Step (_ : Unit) (req : List Sx) : Unit × String :=
       | some (v, L) => ((), "ok " ++ C2Glue.showVal v ++ " " ++ " ".intercalate (L.map C2Glue.showVal))
       | none => ((), "stuck")
     | none => ((), "bad-request")
+  | [.list (.atom "compile3" :: .list (.atom "fns" :: fns) :: chs)] =>
+    match C3Glue.parseFns fns, C3Glue.parseSq chs with
+    | some Φ, some sq =>
+      let entry := " ".intercalate ((QM.RefSem.C3.compileSq C3Glue.Γ₀ sq).1.map C0Glue.showInstr)
+      let fs := Φ.map (fun (fi, d) => s!" ; f{fi} " ++ " ".intercalate ((QM.RefSem.C3.fnCode d).map C0Glue.showInstr))
+      ((), "ok " ++ entry ++ String.join fs)
+    | _, _ => ((), "bad-request")
+  | [.list (.atom "eval3" :: fuel :: .list (.atom "fns" :: fns) :: chs)] =>
+    match fuel.asNat, C3Glue.parseFns fns, C3Glue.parseSq chs with
+    | some n, some Φ, some sq =>
+      match QM.RefSem.C3.evalSq (QM.RefSem.C3.callSem Φ n) C3Glue.Γ₀ [QM.VM.Val.nil] QM.VM.Val.nil sq with
+      | some (v, _) => ((), "ok " ++ C3Glue.showVal3 v)
+      | none => ((), "stuck")
+    | _, _, _ => ((), "bad-request")
   | _ => ((), "bad-request")
 
 def main : IO Unit := sxLoop c02Step ()
